@@ -53,7 +53,7 @@ Theorem step_sp_refused {T} (tk : token T) cf (s : st T) sp o :
   (fst (step_sp tk cf s sp o) = s /\ snd (step_sp tk cf s sp o) <> OK).
 Proof.
   unfold step_sp. intros ->. unfold refused.
-  destruct o as [a x|a b x|a b x|a b x|a c|a b x|a x| |e h|mint smod esc b x|success mint esc b x|mint esc b x|a cs];
+  destruct o as [a x|a b x|a b x|a b x|a c|a b x|a x| |e h|mint smod esc b x|success mint esc b x|mint esc b x|a cs|ow x];
     try (left; done).
   - right. split; [done|]. cbn [snd]. destruct (x <=? 0); [done|]. destruct (N.eqb a MODULE); done.
   - right. split; [done|]. cbn [snd]. destruct (_ && _); [done|]. destruct (negb _); [done|]. destruct (x <=? 0); done.
